@@ -207,7 +207,8 @@ fn bilinear<T: Tier, M: MatN<T, N>, const N: usize>(rep: &mut Report) {
 /// generic: dense, pairwise-distinct operands with bounded deviations; all ring operations
 fn generic<T: Tier, M: MatN<T, N>, const N: usize>(rep: &mut Report) {
     let k = rep.pick(2, 3);
-    let letters: &[R] = if rep.quick() { &alphabet::A1 } else { &alphabet::A2 };
+    // the 4x4 case has 37 slots: three deviations over the 10-letter alphabet would be 7.8e6 cases per base
+    let letters: &[R] = if rep.quick() || N == 4 { &alphabet::A1 } else { &alphabet::A2 };
     let slots = 2 * N * N + N + 1; // A, B, v, s
     let dev = DevSpace::new(slots, letters.len(), k);
     let nb = 3;
